@@ -511,7 +511,9 @@ def r_ident_merge(ctx, db, est, mk_empty=None, assume=None, label=""):
                     return {"got": leaf_map(res.v), "want": leaf_map(ref.v),
                             "obs_got": observe(m, db, est, res), "obs_want": observe(m, db, est, ref)}
                 return thunk, {"a": (full, deep(full.v)), "empty": (empty, deep(empty.v))}
-            paths, stats = explore(db, setup, Config(release=True), 2000)
+            # merging an empty operand must not rely on 0 * x = 0 or x - x = 0 (false when an intermediate
+            # such as binom * mean^k overflows for a high-order define_moments! type): no finite-only folding
+            paths, stats = explore(db, setup, Config(release=True, finite=(side != "other-empty")), 2000)
             run = Run(mp, paths, stats, side)
             ctx.count_run(run)
             key = "merge-identity:%s:%s" % (side, "a-nonempty" if nmin else "a-empty")
@@ -800,12 +802,13 @@ def sentinel_table(est_kind, N=None):
         t["sum_weights"] = {"n0": {ZERO}, "n1": {"W"}, "w0": {ZERO}}
     elif est_kind == "WeightedMeanWithError":
         t["weighted_mean"] = {"n0": {NANC}, "n1": {X}, "n1w0": {NANC}, "const": {X}, "w0": {NANC}}
-        t["unweighted_mean"] = mean_row
-        t["sum_weights"] = {"n0": {ZERO}, "n1": {"W"}}
-        t["sum_weights_sq"] = {"n0": {ZERO}, "n1": {"WW"}}
+        # a zero-weight observation is an observation: the unweighted statistics see it (state n1w0)
+        t["unweighted_mean"] = dict(mean_row, n1w0={X})
+        t["sum_weights"] = {"n0": {ZERO}, "n1": {"W"}, "n1w0": {ZERO}}
+        t["sum_weights_sq"] = {"n0": {ZERO}, "n1": {"WW"}, "n1w0": {ZERO}}
         t["effective_len"] = {"n0": {ZERO}}
-        t["population_variance"] = var_row
-        t["sample_variance"] = svar_row
+        t["population_variance"] = dict(var_row, n1w0={ZERO})
+        t["sample_variance"] = dict(svar_row, n1w0={NANC})
         t["variance_of_weighted_mean"] = {"n0": {NANC}, "n1": {NANC}, "n1w0": {NANC}, "w0": {NANC}}
         t["error"] = {"n0": {NANC}, "n1": {NANC}, "n1w0": {NANC}, "w0": {NANC}}
     elif est_kind == "Covariance":
